@@ -66,6 +66,18 @@ func (h *Hub) mapShipMessageExchangeState(state model.ShipMessageExchangeState, 
 	return connState
 }
 
+// return if the handshake is completed, aborted or failed
+func isHandshakeEnded(state model.ShipMessageExchangeState) bool {
+	switch state {
+	case model.SmeStateComplete,
+		model.SmeHelloStateAbort, model.SmeHelloStateAbortDone,
+		model.SmeHelloStateRemoteAbortDone, model.SmeHelloStateRejected,
+		model.SmeStateError:
+		return true
+	}
+	return false
+}
+
 func (h *Hub) SetAutoAccept(autoaccept bool) {
 	h.muxReg.Lock()
 	defer h.muxReg.Unlock()
@@ -164,6 +176,12 @@ func (h *Hub) CancelPairingWithSKI(ski string) {
 
 	if existingC := h.connectionForSKI(ski); existingC != nil {
 		existingC.AbortPendingHandshake()
+
+		// a handshake that is in a phase where it can not be aborted with a hello message
+		// must not complete later on, so close the connection
+		if state, _ := existingC.ShipHandshakeState(); !isHandshakeEnded(state) {
+			existingC.CloseConnection(false, 4452, "Node rejected by application")
+		}
 	}
 
 	service := h.ServiceForSKI(ski)
